@@ -16,3 +16,8 @@ package main
 //@   assert before call sftp.NewServer#1: readOnly ==> 0 <= ghost.roIdx && ghost.roIdx < len(arg1) && arg1[ghost.roIdx] == ghost.roOpt
 //@   assume after call sftp.NewServer#1: ret1 == nil
 // (assumed: the two options this program passes, WithDebug and ReadOnly, never fail -- main itself ignores the error)
+
+// flag.Parse stores the command line into the variables registered with BoolVar / StringVar.
+//@ func flag.Parse
+//@   trusted
+//@   modifies all
